@@ -602,3 +602,99 @@ func sameFileThroughSymlinkedDir(e *env) []func() {
 	}
 	return out
 }
+
+// sameFileShellSpellings: one of the two names reaches the tool in a spelling
+// only a shell would expand (a literal ~/name, $HOME/name, ${HOME}/name, with
+// HOME set to the working directory), the other names the same file plainly.
+// Whatever the tool makes of such a name, the file in use must be the same
+// afterwards.
+func sameFileShellSpellings(e *env) []func() {
+	r := e.r
+	var out []func()
+	x1 := keys.NewX("X1").PublicStr
+	type cmdline struct {
+		name   string
+		target string
+		argv   func(shell, plain func(string) string) []string
+	}
+	lines := []cmdline{
+		{"input(encrypt)", "in.txt", func(s, p func(string) string) []string {
+			return []string{"-r", x1, "-o", p("in.txt"), s("in.txt")}
+		}},
+		{"input(encrypt), output in shell spelling", "in.txt", func(s, p func(string) string) []string {
+			return []string{"-r", x1, "-o", s("in.txt"), p("in.txt")}
+		}},
+		{"input(decrypt)", "in.age", func(s, p func(string) string) []string {
+			return []string{"-d", "-i", "x1.key", "-o", p("in.age"), s("in.age")}
+		}},
+		{"input(decrypt), output in shell spelling", "in.age", func(s, p func(string) string) []string {
+			return []string{"-d", "-i", "x1.key", "-o", s("in.age"), p("in.age")}
+		}},
+		{"identity(decrypt)", "x1.key", func(s, p func(string) string) []string {
+			return []string{"-d", "-i", s("x1.key"), "-o", p("x1.key"), "in.age"}
+		}},
+		{"identity(decrypt), --identity= form", "x1.key", func(s, p func(string) string) []string {
+			return []string{"-d", "--identity=" + s("x1.key"), "--output=" + p("x1.key"), "in.age"}
+		}},
+		{"identity(decrypt), output in shell spelling", "x1.key", func(s, p func(string) string) []string {
+			return []string{"-d", "-i", p("x1.key"), "-o", s("x1.key"), "in.age"}
+		}},
+		{"identity(encrypt -e -i)", "x1.key", func(s, p func(string) string) []string {
+			return []string{"-e", "-i", s("x1.key"), "-o", p("x1.key"), "in.txt"}
+		}},
+		{"recipients-file", "rcpts.txt", func(s, p func(string) string) []string {
+			return []string{"-R", s("rcpts.txt"), "-o", p("rcpts.txt"), "in.txt"}
+		}},
+		{"recipients-file, output in shell spelling", "rcpts.txt", func(s, p func(string) string) []string {
+			return []string{"-R", p("rcpts.txt"), "-o", s("rcpts.txt"), "in.txt"}
+		}},
+	}
+	shells := []struct {
+		name string
+		f    func(string) string
+	}{
+		{"~/", func(n string) string { return "~/" + n }},
+		{"$HOME/", func(n string) string { return "$HOME/" + n }},
+		{"${HOME}/", func(n string) string { return "${HOME}/" + n }},
+		{"~//", func(n string) string { return "~//" + n }},
+	}
+	for _, l := range lines {
+		for si, sh := range shells {
+			for pi := 0; pi < 2; pi++ {
+				if !r.Thorough() && pi == 1 && si > 0 {
+					continue
+				}
+				l, sh, pi := l, sh, pi
+				out = append(out, func() {
+					d := e.dir()
+					defer e.done(d)
+					pt := []byte("same-file plaintext\n")
+					os.WriteFile(filepath.Join(d, "in.txt"), pt, 0o600)
+					os.WriteFile(filepath.Join(d, "in.age"), refFile("X", pt, false, "samefile"), 0o600)
+					plain := func(n string) string { return n }
+					if pi == 1 {
+						plain = func(n string) string { return filepath.Join(d, n) }
+					}
+					before := snapshot(filepath.Join(d, l.target))
+					argv := append([]string{e.age}, l.argv(sh.f, plain)...)
+					res := cli.Run(&cli.Cmd{Argv: argv, Dir: d, Env: []string{"HOME=" + d}})
+					after := snapshot(filepath.Join(d, l.target))
+					desc := fmt.Sprintf("same-file %s, one name spelled %s (HOME is the working directory), the other %s", l.name, sh.name, []string{"relative", "absolute"}[pi])
+					r.Eval(1)
+					r.Distinct(desc)
+					r.Tab("same_file", "shell-spelling:"+sh.name)
+					if res.Err != nil {
+						r.Inconclusive("%s: driver error %v", desc, res.Err)
+						return
+					}
+					if before != after {
+						r.Violate("same-file-overwritten:shell-spelling:"+l.name, fmt.Sprintf("%s: exit=%d and the file in use was overwritten", desc, res.Exit), map[string]any{"argv": argv, "HOME": "the working directory"})
+					} else {
+						r.Count("same_file_shell_spellings_file_in_use_untouched", 1)
+					}
+				})
+			}
+		}
+	}
+	return out
+}
